@@ -1099,7 +1099,7 @@ def predicates(pid, cases, impl):
         t = line.split()
         op = t[0]
         try:
-            if pid == 'C19' and op in ('mulrecv', 'mulalias', 'pset', 'psetalias', 'psetshared', 'decompressrecv', 'sigdecomp') and not o.startswith('ERR') and o != 'PANIC':
+            if pid == 'C19' and op in ('mulrecv', 'mulalias', 'pset', 'psetalias', 'psetshared', 'decompressrecv', 'sigdecomp', 'mulzerorecv', 'decompresszero') and not o.startswith('ERR') and o != 'PANIC':
                 f = o.split()
                 h = len(f) // 2
                 if f[:h] != f[h:]:
